@@ -34,7 +34,7 @@ theorem reforming_no_fault (r : Int) : Calendar.mkReforming r ≠ .error .fault 
     rw [h, h']
     simp only
     split
-    · simp
+    · split <;> simp
     · split <;> simp
 
 /-- the `i64 → i32` narrowing in `unix2jdn` happens only after the range check, and the
